@@ -44,6 +44,11 @@ func expandC03WS(seed uint64, tier string) []*core.Plan {
 	if r.Chance(1, 4) {
 		p.SetKnob("trunc", 1)
 		p.SetKnob("cutpm", r.Intn(1001)) // where the stream ends, permille of its length
+	} else if r.Chance(1, 3) {
+		// the receiver's read limit equals the longest packet of the stream: the
+		// limit is per MQTT packet, however many packets one WebSocket message
+		// (one flush of the sender) carries
+		p.SetKnob("limitmax", 1)
 	}
 	return []*core.Plan{p}
 }
@@ -93,6 +98,16 @@ func runC03WS(t *testing.T, p *core.Plan) *core.Result {
 			}
 		}
 		total = len(stream)
+		if p.Knob("limitmax", 0) == 1 {
+			longest := 0
+			for _, pk := range sent {
+				if l := len(Enc(pk)); l > longest {
+					longest = l
+				}
+			}
+			rcv.SetReadLimit(int64(longest))
+			res.Count("ws_read_limit_runs", 1)
+		}
 		if p.Knob("trunc", 0) == 1 {
 			truncAt = total * p.Knob("cutpm", 500) / 1000
 		}
